@@ -474,8 +474,8 @@ theorem standardOp_reqs (env : Env) (sg : Subgraph) (qsvs : Qsvs) (oi : OpInfo) 
       List.Forall₂ (fun t r => wrapper env qsvs oi t false gO = .ok r) outT B ∧
       (g = none ∨ (con = .sameAsOutput ∧ ∃ t orq, outT = [t] ∧ wrapper env qsvs oi t false none = .ok orq ∧
           g = (match orq.producer with | some pr => pr.param | none => none))) ∧
-      (gO = none ∨ (con = .sameAsInput ∧ ∃ t ir, inT = [t] ∧ wrapper env qsvs oi t true none = .ok ir ∧
-          reqParam0 ir = .ok gO)) := by
+      (gO = none ∨ (con = .sameAsInput ∧ ∃ t ir p0, inT = [t] ∧ wrapper env qsvs oi t true none = .ok ir ∧
+          reqParam0 ir = .ok p0 ∧ gO = stripData p0)) := by
   unfold standardOp at h
   obtain ⟨inIgn, hinIgn, h1⟩ := GraphInv.bind_ok _ _ _ h
   clear h
@@ -527,8 +527,8 @@ theorem standardOp_reqs (env : Env) (sg : Subgraph) (qsvs : Qsvs) (oi : OpInfo) 
         · simp only [pure, Except.pure, Except.ok.injEq] at ht
           rw [ht]
         · cases ht
-      refine ⟨[ir], outs, none, p, hinIgn, houtIgn, hsplitIn, hsplitOut, h.1.symm, ?_,
-        mapM_forall₂ _ _ _ houts, Or.inl rfl, Or.inr ⟨rfl, t, ir, hinT, hir, hp⟩⟩
+      refine ⟨[ir], outs, none, stripData p, hinIgn, houtIgn, hsplitIn, hsplitOut, h.1.symm, ?_,
+        mapM_forall₂ _ _ _ houts, Or.inl rfl, Or.inr ⟨rfl, t, ir, p, hinT, hir, hp, rfl⟩⟩
       rw [hinT]
       exact List.Forall₂.cons hir List.Forall₂.nil
     | sameAsOutput =>
@@ -564,9 +564,11 @@ theorem standardOp_shape (env : Env) (sg : Subgraph) (qsvs : Qsvs) (oi : OpInfo)
       (g = none ∨ (con = .sameAsOutput ∧ ∃ p ∈ cslots oi.op.outputs, ∃ t orq, outIgn.contains p.2 = false ∧
           tensorAt sg p.1 = .ok t ∧ wrapper env qsvs oi t false none = .ok orq ∧
           g = (match orq.producer with | some pr => pr.param | none => none))) ∧
-      -- the parameter handed to the result requests: none, or (same-as-input) the one of an operand
-      (gO = none ∨ (con = .sameAsInput ∧ ∃ p ∈ cslots oi.op.inputs, ∃ t ir, inIgn.contains p.2 = false ∧
-          tensorAt sg p.1 = .ok t ∧ wrapper env qsvs oi t true none = .ok ir ∧ reqParam0 ir = .ok gO)) := by
+      -- the parameter handed to the result requests: none, or (same-as-input) the one of an operand,
+      -- stripped of its quantized values
+      (gO = none ∨ (con = .sameAsInput ∧ ∃ p ∈ cslots oi.op.inputs, ∃ t ir p0, inIgn.contains p.2 = false ∧
+          tensorAt sg p.1 = .ok t ∧ wrapper env qsvs oi t true none = .ok ir ∧ reqParam0 ir = .ok p0 ∧
+          gO = stripData p0)) := by
   obtain ⟨inIgn, outIgn, ignInT, inT, ignOutT, outT, inIgnU, outIgnU, A, B, g, gO, hinIgn, houtIgn, hsplitIn, hsplitOut,
     hrs, hA, hB, hg, hgO⟩ := standardOp_reqs env sg qsvs oi con gIn gOut rs qs' h
   have hSI := splitTensors_spec _ _ _ _ _ _ hsplitIn
@@ -581,8 +583,8 @@ theorem standardOp_shape (env : Env) (sg : Subgraph) (qsvs : Qsvs) (oi : OpInfo)
     · exact Or.inl hg
     · obtain ⟨p, hp, h1, h2⟩ := hSO.oth_mem t (by rw [hT]; exact List.mem_cons_self)
       exact Or.inr ⟨hc, p, hp, t, orq, h1, h2, hw, hg⟩
-  · rcases hgO with hg | ⟨hc, t, ir, hT, hw, hg⟩
+  · rcases hgO with hg | ⟨hc, t, ir, p0, hT, hw, hp0, hg⟩
     · exact Or.inl hg
     · obtain ⟨p, hp, h1, h2⟩ := hSI.oth_mem t (by rw [hT]; exact List.mem_cons_self)
-      exact Or.inr ⟨hc, p, hp, t, ir, h1, h2, hw, hg⟩
+      exact Or.inr ⟨hc, p, hp, t, ir, p0, h1, h2, hw, hp0, hg⟩
 end Pipe
